@@ -1,4 +1,4 @@
 """C01 - snapshot isolation, write-write exclusion, insert semantics, locking reads, external consistency."""
 from checks.txn_common import run_txn_check
 def run(tier, seed, replay=None):
-    return run_txn_check("C01", [("c01", 150, 3000)], tier, seed, replay)
+    return run_txn_check("C01", [("c01", 300, 4000), ("c06", 250, 3000)], tier, seed, replay)
